@@ -363,7 +363,7 @@ impl Property for C10 {
             ops.push(SOp::Restart { policy: None });
             for sop in &ops {
                 let step = exec.step(sop)?;
-                exec.check_outcome(&step)?;
+                exec.usable_or_skip(&step)?;
             }
         }
         exec.driver.close()?;
